@@ -129,6 +129,20 @@ class PROP(Prop):
                 data = dmg + good
                 second = cligen.call_op(req, R=mb.rscript(rng.choice([[data], [dmg, good], mb.chunkings(data, rng, 1)[0]])))
                 cs.append(Case(cligen.cli_line("rtu", slave, [first, second]), {"k": "cli_stale", "stream": data.hex(), "slave": slave, "req": mb.show_req(req), "k1": k}))
+        # LONG reply frames (Read FIFO Queue, function 0x18, announces its length in 16 bits: up to 64 KiB): the CRC covers ALL of it -- one
+        # flipped bit anywhere, also far behind the first 256 bytes, and the frame is not delivered
+        for _ in range(40 if tier == "quick" else 400):
+            slave = rng.randrange(1, 248)
+            nbytes = rng.choice([250, 254, 300, 600, 2000, 5000])
+            payload = bytes(rng.randrange(256) for _ in range(nbytes))
+            fr = mb.rtu_frame(slave, bytes([0x18]) + mb.be16(nbytes) + payload)
+            good = rng.random() < 0.25
+            data = fr
+            if not good:
+                b = bytearray(fr); bit = rng.randrange(8 * 3, 8 * (len(fr) - 2)) if rng.random() < 0.3 else rng.randrange(8 * 257, 8 * (len(fr) - 2)) if len(fr) > 300 else rng.randrange(8 * 3, 8 * (len(fr) - 2))
+                b[bit // 8] ^= 1 << (bit % 8); data = bytes(b)
+            parts = [data] if rng.random() < 0.5 else mb.chunkings(data, rng, 1)[0]
+            cs.append(Case(cligen.cli_line("rtu", slave, [cligen.call_op(("CU", 0x18, b"\x00\x01"), R=mb.rscript(parts))]), {"k": "cli_long18", "good": good, "n": nbytes}))
         # emitted frames
         for _ in range(300 if tier == "quick" else 3000):
             req = mb.rnd_req(rng)
@@ -200,6 +214,11 @@ class PROP(Prop):
             if k == "srv_valid" and len(calls) != 1:
                 return "valid frame not delivered: %s" % r[:60]
             return None
+        if k == "cli_long18":
+            res, _ = cligen.res_and_w(r)
+            if m["good"]:
+                return None if res.startswith("OK:") else "an intact %d-byte FIFO reply was not delivered: %s" % (m["n"] + 7, res[:60])
+            return None if not res.startswith("OK:") else "a %d-byte reply with one flipped bit was returned as data" % (m["n"] + 7)
         if k.startswith("cli_"):
             res, w = cligen.res_and_w(cligen.split_results(r)[-1])
             stream = bytes.fromhex(m["stream"])
